@@ -84,8 +84,10 @@ func runC19(r *Run, rng *Rng, thorough bool) {
 		ops = append(ops, &evOp{Kind: "setclaims", D: c19Claims(rng, true)})
 		for i := 0; i < n; i++ {
 			switch x := rng.Intn(100); {
-			case x < 15:
+			case x < 12:
 				ops = append(ops, &evOp{Kind: "setclaims", D: c19Claims(rng, rng.Chance(70))})
+			case x < 18:
+				ops = append(ops, &evOp{Kind: "mutate", D: c19Claims(rng, rng.Chance(40))})
 			case x < 45:
 				k := ks[rng.Intn(len(ks))]
 				if k.family == "rsa" && !rng.Chance(15) {
@@ -140,9 +142,14 @@ func runC19(r *Run, rng *Rng, thorough bool) {
 				if st.res == "ok" {
 					replaced = true
 				}
+			case "mutate":
+				replaced = true
 			case "sign", "vsign":
 				replaced = false
 				lastSignFailed = st.res != "ok"
+				if o.Kind == "vsign" && st.res == "ok" && attached && ev.Claims.Validate() != nil {
+					fails = append(fails, pend{"validate-and-sign-gate", fmt.Sprintf("step %d: ValidateAndSign issued a token although the attached claims fail validation", i)})
+				}
 				if st.res != "ok" && st.token != nil {
 					fails = append(fails, pend{"failed-op-no-token", fmt.Sprintf("step %d %s failed but returned a token", i, o.Kind)})
 				}
